@@ -160,6 +160,12 @@ impl<'ast> syn::visit::Visit<'ast> for Mentions {
     if ep.path.segments.len() >= 2 {
       let segs: Vec<String> = ep.path.segments.iter().map(|s| s.ident.to_string()).collect();
       self.0.push(format!("expr:{}", segs.join("::")));
+    } else if let Some(id) = ep.path.get_ident() {
+      // a bare SCREAMING_SNAKE identifier in expression position names a constant / static
+      let t = id.to_string();
+      if t.len() > 1 && t.chars().next().is_some_and(|c| c.is_ascii_uppercase()) && t.chars().all(|c| c.is_ascii_uppercase() || c.is_ascii_digit() || c == '_') {
+        self.0.push(format!("const:{t}"));
+      }
     }
     syn::visit::visit_expr_path(self, ep);
   }
